@@ -377,7 +377,8 @@ Section Extended.
   Definition ex_negin (r : Z) : Z := let x := - r in if x <? 0 then x + p else x.
   Definition ex_init (s : src) (a : Z) : option Z :=
     match s with
-    | SInteger => Some (ex_reduce (trunc_to prec a))     (* generic (the `const Integer&` specialisations are never selected) *)
+    | SInteger => Some (ex_reduce (rnd prec (trunc_to 53 a)))   (* generic (the `const Integer&` specialisations are never selected);
+                                                                   Integer::operator float is (float)mpz_get_d: truncate to double, then round *)
     | SF sprec =>
         if (prec =? 24) && (sprec =? 53) then            (* r = static_cast<float>(fmod(a, _p)); if (r < 0) r += _p *)
           let r := Z.rem a p in Some (if r <? 0 then r + p else r)
